@@ -47,6 +47,24 @@ Theorem C11_replay_depth_all_streams : forall es l, gt_run gt0 es = Some l -> rp
 Proof. exact replay_depth_all_streams. Qed.
 Print Assumptions C11_replay_depth_all_streams.
 
+(* "...for every thread": setjmp_depth / setjmp_count are file-level statics of utils/fstack.c, shared by every task
+   of the trace, so the `latest setjmp` guessed at a longjmp may be ANOTHER task's (shallower or deeper).  For
+   every merged stream of any number of tasks whose own records are faithful, replay still shows every record at
+   its true depth: the EXIT record of the setjmp that was the target corrects the guess in both directions. *)
+Theorem C11_replay_depth_all_tasks : forall es l, gtm_run (fun _ => gt0) es = Some l -> rpm_run rpm0 es = l.
+Proof. exact replay_depth_all_tasks. Qed.
+Print Assumptions C11_replay_depth_all_tasks.
+
+(* non-vacuity: task 1 setjmp at depth 4 < task 2 setjmp at depth 2 < task 1 longjmp; a resynchronisation that only
+   ever shrinks the depth (`diff > 0`) shows the calls after the jump two levels too high *)
+Theorem C11_replay_cross_task_right :
+  gtm_run (fun _ => gt0) witness_cross_task = Some [0; 1; 2; 3; 4; 4; 0; 1; 2; 2; 1; 0; 4; 5; 6; 4; 4; 4; 3; 2; 1; 0] /\
+  rpm_run rpm0 witness_cross_task = [0; 1; 2; 3; 4; 4; 0; 1; 2; 2; 1; 0; 4; 5; 6; 4; 4; 4; 3; 2; 1; 0] /\
+  rpm_run_with rp_step_shrink_only rpm0 witness_cross_task
+    = [0; 1; 2; 3; 4; 4; 0; 1; 2; 2; 1; 0; 4; 5; 6; 2; 2; 2; 1; 0; 0; 0].
+Proof. exact replay_cross_task_right. Qed.
+Print Assumptions C11_replay_cross_task_right.
+
 (* vfork (prepare_vfork / setup_vfork / restore_vfork): for every legal program in which, at any points, a
    vfork child runs on the parent's stack and shadow stack - calls, returns, tail calls, PLT calls, setjmp,
    exceptions caught inside the child, until it execs or exits from any depth, never returning from the
